@@ -201,7 +201,7 @@ func (s *sched) exec(g *G, r *request) (rep reply, blocked bool) {
 			}
 			w.waiters = nil
 		}
-		s.note(g, r.kind, fmt.Sprint(w.n), sid)
+		s.note(g, r.kind, itoa(w.n), sid)
 		return reply{}, false
 	case opWGWait:
 		w := s.wgOf(r.ch)
@@ -462,4 +462,31 @@ func (s *sched) execImmediate(g *G, r *request) reply {
 		return reply{val: perm}
 	}
 	panic("simrt: bad immediate op")
+}
+
+// itoa formats n without touching fmt (whose pooled printers are shared with
+// the simulated goroutines and must not be used by the scheduler goroutine,
+// which runs with race synchronisation events disabled).
+//
+//go:norace
+func itoa(n int64) string {
+	if n == 0 {
+		return "0"
+	}
+	neg := n < 0
+	if neg {
+		n = -n
+	}
+	var b [24]byte
+	i := len(b)
+	for n > 0 {
+		i--
+		b[i] = byte('0' + n%10)
+		n /= 10
+	}
+	if neg {
+		i--
+		b[i] = '-'
+	}
+	return string(b[i:])
 }
